@@ -10,6 +10,7 @@
 -/
 import FileD.Lemmas.OffsetsFile
 import FileD.Lemmas.SaveProto
+import FileD.Lemmas.SaveSnap
 namespace FileD.PropsC07
 open FileD FileD.OffsetsFile
 
@@ -117,6 +118,37 @@ example :
       [.addJob 1, .commit 1 [97] 1, .commit 1 [98] 1, .commit 1 [97] 2, .commit 1 [98] 2]).map
       (fun s => (s.hist.contains (1, [([97], 2), ([98], 1)]), s.hist.contains (1, [([97], 1), ([98], 2)])))
     = some (true, false) := by rfl
+
+/-! ## 2b. Concurrent saves on one offsetDB: a save formats the snapshot it took -/
+
+/-- full statement for a lock order `o`: for every interleaving of the `lock` / `snap` / `visit` /
+    `finish` steps of any number of saving goroutines on ONE offsetDB, every finished save formatted
+    exactly the jobs it snapshotted, in that order — each job once, none missing (the array behind
+    `o.jobsSnapshot` is shared between the savers; only its length is the saver's own). -/
+def SaveFormatsOwnSnapshot (o : SaveSnap.Order) : Prop :=
+  ∀ (ops : List SaveSnap.Op) (s : SaveSnap.St), SaveSnap.run o SaveSnap.init ops = some s →
+    ∀ p ∈ s.done, p.2 = p.1
+
+/-- **the code**: the snapshot is taken while holding `o.mu` -/
+theorem save_formats_own_snapshot : SaveFormatsOwnSnapshot .lockFirst := by
+  intro ops s hr
+  exact (TS.invariant_of_step (SaveSnap.step? .lockFirst) SaveSnap.LInv SaveSnap.linv_step
+    SaveSnap.init s ops SaveSnap.linv_init hr).done_ok
+
+/-- two savers taking turns: the second can only refill the shared slice after the first finished -/
+example : (SaveSnap.run .lockFirst SaveSnap.init
+    [.lock 1, .snap 1 [1, 2], .visit 1, .visit 1, .finish 1, .lock 2, .snap 2 [2, 1], .visit 2, .visit 2, .finish 2]).map
+    (·.done) = some [([1, 2], [1, 2]), ([2, 1], [2, 1])] := by decide
+example : (SaveSnap.run .lockFirst SaveSnap.init [.lock 1, .snap 1 [1, 2], .visit 1, .lock 2]).isNone = true := by decide
+
+/-- **counterexample** (seeded change C07-e: `snapshotJobs` before `o.mu.Lock()`): saver 1 formats
+    job 1, saver 2 refills the shared slice in another map order, saver 1 reads cell 1 again — its
+    file names job 1 twice ("duplicate inode": the next start panics) and job 2 is missing. -/
+theorem save_formats_own_snapshot_counterexample : ¬ SaveFormatsOwnSnapshot .snapFirst := by
+  intro h
+  have := h [.snap 1 [1, 2], .lock 1, .visit 1, .snap 2 [2, 1], .visit 1, .finish 1]
+  revert this
+  simp [SaveSnap.run, TS.run, SaveSnap.step?, SaveSnap.init, SaveSnap.setPc, SaveSnap.refill]
 
 /-! ## 3. The save protocol: every failure pattern, every crash point -/
 
